@@ -1114,6 +1114,13 @@ func main() {
 		res.Distribution["hook-pass:"+k] = v
 	}
 
+	// kitdrv is shared: another check's `lake build` may be relinking it right now
+	for i := 0; fl.Drv != "" && i < 120; i++ {
+		if _, err := os.Stat(fl.Drv); err == nil {
+			break
+		}
+		time.Sleep(500 * time.Millisecond)
+	}
 	drv, err := lib.StartDrv(fl.Drv, "C20")
 	if err != nil {
 		fmt.Fprintln(os.Stderr, "drv:", err)
